@@ -684,7 +684,12 @@ pub fn drive_push<B: Buffer>(
     alloc_fail: u64,
     final_finalize: bool,
 ) -> Vec<Obs> {
-    drive_push_from::<B>(stream, ops, alloc_fail, final_finalize, None)
+    // A third of the streams meet a decoder that was built with `Decoder::from_buf` over a
+    // buffer that still holds bytes of an earlier life (a pure function of the stream, so the
+    // scenario alone decides it).  `from_buf` promises an empty decoder, hence no oracle changes.
+    const JUNK: [u8; 8] = [0x1b, 0x1b, 0x1b, 0x1b, 0x01, 0x00, 0x1a, 0x55];
+    let dirty = if stream.len() % 3 == 1 { Some(&JUNK[..stream.len() % 7 + 1]) } else { None };
+    drive_push_from::<B>(stream, ops, alloc_fail, final_finalize, dirty)
 }
 
 /// like `drive_push`, optionally constructing the decoder with `Decoder::from_buf` over a buffer
@@ -797,6 +802,27 @@ pub fn drive_push_kind(
     final_finalize: bool,
 ) -> Vec<Obs> {
     with_buf!(buf, B => drive_push::<B>(stream, ops, alloc_fail, final_finalize))
+}
+
+/// A push decoder that has already served another stream (`history`) and was finalized, then is
+/// fed `stream`: only what it reports about `stream` is returned (positions relative to it).
+pub fn drive_push_used_kind(buf: BufKind, history: &[u8], stream: &[u8]) -> Vec<Obs> {
+    let mut all = history.to_vec();
+    all.extend_from_slice(stream);
+    let h = history.len();
+    let obs = with_buf!(buf, B => drive_push_from::<B>(&all, &[(h, PushOp::Finalize)], 0, true, None));
+    let mut seen_boundary = false;
+    let mut out = Vec::new();
+    for o in obs {
+        if !seen_boundary {
+            if o.pos == h && matches!(o.item, Item::FinNone | Item::Fin(_)) {
+                seen_boundary = true;
+            }
+            continue;
+        }
+        out.push(Obs { pos: o.pos - h, item: o.item });
+    }
+    out
 }
 
 pub fn drive_push_dirty_kind(buf: BufKind, stream: &[u8], dirty: &[u8]) -> Vec<Obs> {
